@@ -11,6 +11,8 @@ of one combinator pipeline, or a push loop in a helper makes no difference.
                           URI path exactly when the scheme is present and == "libcnb"; a parse error is returned and nothing
                           else happens without a successful parse; the id is looked up in the id->path map;
                           missing => Err(MissingBuildpackPath(id)); found => dependency built from that path
+                          (a helper may answer `Ok(None)` / `None` for "keep as it is" and leave the clone to its caller:
+                          `unwrap_or*`, `match` on the decided payload and `transpose` are part of the case analysis)
   R2 one-to-one           the `dependencies` of the success payload are made from the input's by exactly two passes, each
                           element by element: an iterator pipeline in which only `map` occurs (no
                           filter/skip/take/rev/dedup/flat_map), or a fresh Vec that receives exactly one push on every way
@@ -19,7 +21,10 @@ of one combinator pipeline, or a push loop in a helper makes no difference.
                           descriptor in place (`pass(&mut d)?` with `for x in &mut d.dependencies { .. *x = new .. }`: slots
                           are only assigned as a whole, at most once per iteration, from values read before; nothing else
                           of the descriptor is touched; C14_helpers.inplace_sequence); pass 1 starts from the input's
-                          list, pass 2 from the (complete) list pass 1 made
+                          list, pass 2 from the (complete) list pass 1 made.  How the passes are sequenced is immaterial:
+                          `p1(d).and_then(p2)`, `?`, or a literal table of closures / fn pointers threaded through a `for`
+                          loop, `try_fold` or `fold(Ok(..), |r, p| r.and_then(..))` (unrolled in table order; a table that
+                          is reversed, truncated, left early or not applied to the running value is not unrolled)
   R3 verbatim arms        non-libcnb dependencies (pass 1) and dependencies with any scheme (pass 2) are returned
                           as a clone of the input; only scheme-less URIs are rewritten (cases of the element mapping)
   R4 struct update        the result descriptor takes `buildpack` and `platform` from the input descriptor (through every
